@@ -340,7 +340,10 @@ func c02(c *Ctx) {
 				return false
 			}
 			r.Check(has(func(o types.Object) bool { f, ok := o.(*types.Func); return ok && f.Name() == "sessionExpiration" }), "C02.N6", name, "horizon depends on the session expiration", c.P.Pos(snap.Node().Pos()), "fsm.sessionExpiration()", "the compaction horizon does not depend on the configured session expiration")
-			r.Check(has(func(o types.Object) bool { k, ok := o.(*types.Const); return ok && k.Name() == "expireSessionsInterval" }), "C02.N6", name, "horizon includes the sweep interval", c.P.Pos(snap.Node().Pos()), "+ expireSessionsInterval", "the compaction horizon does not include expireSessionsInterval (session expiration + 10s)")
+			r.Check(has(func(o types.Object) bool {
+				k, ok := o.(*types.Const)
+				return ok && k.Name() == "expireSessionsInterval"
+			}), "C02.N6", name, "horizon includes the sweep interval", c.P.Pos(snap.Node().Pos()), "+ expireSessionsInterval", "the compaction horizon does not include expireSessionsInterval (session expiration + 10s)")
 			r.Check(has(func(o types.Object) bool { v, ok := o.(*types.Var); return ok && v.Name() == "canaryCompactionStart" }), "C02.N6", name, "horizon honours -canary_compaction_start", c.P.Pos(snap.Node().Pos()), "override present", "the canary compaction start override no longer feeds the horizon")
 			r.Check(has(func(o types.Object) bool { f, ok := o.(*types.Func); return ok && f.FullName() == "time.Now" }), "C02.N6", name, "horizon is relative to the compaction start time", c.P.Pos(snap.Node().Pos()), "time.Now()", "the horizon is not relative to the time the compaction started")
 			// the expiration is subtracted: compactionStart.Add(-1 * exp)
@@ -595,7 +598,9 @@ func (c *Ctx) c02Restore() {
 	}
 	r.Check(nA > 0, "C02.N4", dp.Name(), "records applied", c.P.Pos(dp.Node().Pos()), "found", "decodeProtobuf never applies the retained entries")
 	// the final batch is flushed on the success path
-	isWB := func(fn *types.Func, _ *ast.CallExpr) bool { return isFunc(fn, "raftstore", "(*LevelDBStore).WriteBatch") }
+	isWB := func(fn *types.Func, _ *ast.CallExpr) bool {
+		return isFunc(fn, "raftstore", "(*LevelDBStore).WriteBatch")
+	}
 	for _, rv := range dg.Returns() {
 		rsn := rv.Node.(*ast.ReturnStmt)
 		if len(rsn.Results) == 1 && isNilIdent(di, rsn.Results[0]) {
@@ -854,7 +859,10 @@ func (c *Ctx) c02BaseState(snap *load.FuncInfo, lss *types.Var) {
 			}
 			nSel++
 			keyVar := astx.Obj(info, rng.Key.(*ast.Ident))
-			isKey := func(e ast.Expr) bool { id, ok := ast.Unparen(e).(*ast.Ident); return ok && astx.Obj(info, id) == keyVar }
+			isKey := func(e ast.Expr) bool {
+				id, ok := ast.Unparen(e).(*ast.Ident)
+				return ok && astx.Obj(info, id) == keyVar
+			}
 			isFirst := func(e ast.Expr) bool {
 				id, ok := ast.Unparen(e).(*ast.Ident)
 				return ok && firstObj != nil && astx.Obj(info, id) == firstObj
